@@ -174,6 +174,14 @@ Definition shift_wire {zt amp} (s : N) (a : aval zt amp) : aval zt amp :=
 Definition neg_z {zt amp} (zneg : zt -> zt) (a : aval zt amp) : aval zt amp :=
   Aval (av_wire a) (av_t a) (zneg (av_z a)) (av_wamp a) (av_pamp a).
 
+(* known-finding class pad_amplitude_tie (F6), negated: in no time bin of any pad column do two pad
+   hits have the same amplitude *)
+Definition NoPadTie {sig amp zt} (azero : amp) (apos : amp -> bool) (agt : amp -> amp -> bool)
+           (zf : N -> amp -> amp -> amp -> zt) (P : sig -> list amp)
+           (pads : list (list (option sig))) : Prop :=
+  forall (c t : nat),
+    NoDup (map snd (pad_hits_at_t azero apos agt zf (pad_inputs_column P (nth c pads [])) t)).
+
 (* comparison closures of matching.rs:117-118: |a, b| b.amplitude.partial_cmp(&a.amplitude).unwrap();
    is_less(a, b) = (cmp(a, b) == Less) = (b.amplitude < a.amplitude) *)
 Definition lessW {amp} (agt : amp -> amp -> bool) (a b : N * amp) : bool := agt (snd a) (snd b).
